@@ -1046,7 +1046,16 @@ def _shadow_policies(ctx, live):
         pol.append(("EDF", S.EDFScheduler(runtime=z, enforce_deadlines=enf)))
         pol.append(("FIFO", S.FIFOScheduler(runtime=z, enforce_deadlines=enf)))
     pol.append(("LSF", S.LSFScheduler(runtime=z)))
-    if not greedy_run:
+    if not greedy_run and getattr(live, "_batching", False):
+        # a run of a batching planner: its states hold batches (tasks placed under a BatchStrategy that is none of their own
+        # strategies).  Only the batching modes are defined on such states: shadow those, not the plain planners.
+        la, retract = live.lookahead, bool(live.retract_schedules)
+        pol.append(("ILP_batching", S.ILPScheduler(runtime=z, lookahead=la, enforce_deadlines=True, goal="max_goodput",
+                                                   retract_schedules=retract, batching=True)))
+        pol.append(("TetriSched_CPLEX_batching", S.TetriSchedCPLEXScheduler(
+            runtime=z, lookahead=la, enforce_deadlines=True, retract_schedules=retract, goal="max_goodput", batching=True,
+            time_discretization=EventTime(1, US), plan_ahead=EventTime(12, US), time_limit=EventTime(-1, EventTime.Unit.S))))
+    elif not greedy_run:
         # planners need the worker id of running / scheduled tasks, which only planner-driven runs record
         # the state is reachable only under the live policy's frontier options: mirror them
         la, retract, rtg = live.lookahead, bool(live.retract_schedules), bool(live.release_taskgraphs)
